@@ -40,7 +40,8 @@ def must_see(tier):
 
 
 SCENARIOS = ['random', 'min-vs-below', 'empty-vs-insert', 'split-vs-insert',
-             'clear-vs-any', 'same-leaf-disjoint', 'same-key']
+             'clear-vs-any', 'same-leaf-disjoint', 'same-key',
+             'replace-leaf-vs-gap']
 
 
 def plan(tier, seed):
@@ -139,6 +140,24 @@ def gen_tx(fam, kind, rng, scen, role, w, base_keys, universe, values, mls):
     elif scen == 'clear-vs-any':
         if role == 0:
             ops.append(('clear', ()))
+    elif scen == 'replace-leaf-vs-gap' and len(leaves) > 1:
+        # one transaction replaces the whole content of a non-first leaf by
+        # a key above it (the leaf's minimum, hence its separator, moves
+        # up); the other inserts into the gap in between (or just below the
+        # old minimum): merged, that key would sit below the new separator
+        li = rng.randrange(1, len(leaves))
+        L = leaves[li]
+        hi = leaves[li + 1][0] if li + 1 < len(leaves) else None
+        above = between(L[-1], hi)
+        if len(above) >= 2:
+            n_ = above[-1] if rng.random() < .6 else rng.choice(above[1:])
+            gap = [k for k in above if klt(k, n_)]
+            if role == 0:
+                ops.append(ins(n_))
+                keep = 0 if rng.random() < .75 else 1
+                ops += [dele(k) for k in (L[keep:] if keep else L)]
+            elif gap:
+                ops.append(ins(rng.choice(gap)))
     elif scen == 'same-key' and leaves:
         # both transactions touch the SAME key of one leaf (delete vs value
         # change, change vs change, delete vs delete, duelling inserts)
